@@ -283,10 +283,30 @@ def check_roles(prog, rep):
                             (n[0] == "call" and "Iterator" in n[1] and n[1].split("::")[-1] in ("filter", "map")):
                         nm = n[1].split("::")[-1]
                         clos = [a for a in n[3] if a[0] == "agg" and str(a[1]).startswith("closure:")]
-                        if nm not in ("filter", "map") or len(clos) != 1:
+                        if nm not in ("filter", "map", "filter_map") or len(clos) != 1:
                             bad.append("unexpected stream adapter %s" % nm)
                             continue
                         cases = closure_cases(clos[0])
+                        if nm == "filter_map":
+                            # one closure doing both: Some(Pixel(pos, colour)) for the glyph colours that are drawn
+                            acc = set()
+                            for facts, ret, eff in cases:
+                                sel = variant_sel(facts)
+                                r = strip_refs(ret)
+                                if sel is None or eff:
+                                    bad.append("filter_map closure not a test of the glyph colour")
+                                    continue
+                                if r == ("agg", "core::option::Option::None", ()):
+                                    continue
+                                px = r[2][0] if r[0] == "agg" and str(r[1]).endswith("Option::Some") and r[2] else None
+                                if px is None or px[0] != "agg" or not str(px[1]).endswith("Pixel::Pixel") or match(px[2][0], ("field", ("param", 2, "_"), 0)) is None or colour_of(px[2][1]) is None:
+                                    bad.append("filter_map closure yields %s" % show(ret, maxd=4))
+                                    continue
+                                acc |= set(sel)
+                                for v in sel:
+                                    got.setdefault("map", {})[v] = colour_of(px[2][1])
+                            got["filter"] = sorted(acc)
+                            continue
                         if nm == "filter":
                             acc = set()
                             for facts, ret, eff in cases:
@@ -314,9 +334,9 @@ def check_roles(prog, rep):
         except Unsupported as e:
             bad.append("cannot summarise: %s" % e)
         if flavour == "Foreground":
-            good = got == {"filter": ["On"], "map": {"Off": 0, "On": 0}} and callee == ["draw_iter"]
+            good = got.get("filter") == ["On"] and got.get("map", {}).get("On") == 0 and set(got) == {"filter", "map"} and callee == ["draw_iter"]
         elif flavour == "Background":
-            good = got == {"filter": ["Off"], "map": {"Off": 0, "On": 0}} and callee == ["draw_iter"]
+            good = got.get("filter") == ["Off"] and got.get("map", {}).get("Off") == 0 and set(got) == {"filter", "map"} and callee == ["draw_iter"]
         else:
             good = got == {"map": {"On": 0, "Off": 1}} and callee == ["fill_contiguous"]
         rep.check(good and not bad, "R14.3", "fill_contiguous:" + flavour, "fill_contiguous colour roles not as documented: %s via %s %s" % (got, callee, "; ".join(sorted(set(bad))[:2])),
@@ -416,81 +436,132 @@ def check_glyph(prog, rep):
 
 
 def check_grammar(prog, rep):
-    """R14.4: StrGlyphMapping::{chars, ranges} decode the NUL-marker grammar; index() enumerates chars()."""
+    """R14.4 on path summaries: StrGlyphMapping::{chars, ranges} decode the NUL-marker grammar; index() is the position
+    of the first equal character in chars() with replacement_index as fallback."""
+    from mirq.paths import CONTINUES, NONE
     idx = prog.method1(STRMAP, "index", "embedded_graphics::mono_font::mapping::GlyphMapping")
-    from mirq.expand import Expander
-    ro = Origins(idx).return_origin()
-    # exact chain (no alternative path): unwrap_or(map(find(enumerate(chars(self)), _), _), self.replacement_index)
-    ri = field_index(prog, STRMAP, "replacement_index")
-    cur = strip_refs(ro)
-    ok = True
-    for nm in ("unwrap_or", "map", "find", "enumerate", "chars"):
-        if cur[0] == "call" and cur[1].split("::")[-1] == nm and cur[3]:
-            if nm == "unwrap_or":
-                ok = ok and strip_refs(cur[3][1]) == ("field", ("param", 1, "self"), ri)
-            cur = strip_refs(cur[3][0])
+    ri = ("field", ("param", 1, "self"), field_index(prog, STRMAP, "replacement_index"))
+    me, cpar = ("param", 1, "self"), ("param", 2, "c")
+    chars_self = ("call", "*StrGlyphMapping::<'a>::chars", "_", (me,))
+    bad = []
+    n_hit = n_miss = 0
+    try:
+        summs = Paths(prog, loops="once").of(idx)
+    except Unsupported as e:
+        summs = []
+        bad.append("cannot summarise index(): %s" % e)
+    for sm in summs:
+        if sm.ret is None or any(n == CONTINUES for x in [sm.ret] + [y for fct in sm.facts for y in fct[1:] if isinstance(y, tuple)] for n in walk(x)):
+            continue
+        nxt = [fct for fct in sm.facts if fct[0] == "variant" and fct[1][0] == "call" and fct[1][1].split("::")[-1] == "next"]
+        if len(nxt) != 1 or sm.effects:
+            bad.append("a path of index() does not examine exactly one item of the enumeration")
+            continue
+        it, names = nxt[0][1][3][0], nxt[0][2]
+        enum = match(it, ("call", "*::enumerate", "_", (chars_self,))) is not None
+        plain = match(it, chars_self) is not None
+        if not (enum or plain):
+            bad.append("index() searches %s, not self.chars()" % show(it, maxd=4))
+            continue
+        item = ("payload", nxt[0][1])
+        rest = [fct for fct in sm.facts if fct is not nxt[0]]
+        if names == ("None",):
+            n_miss += 1
+            if rest or sm.ret != ri:
+                bad.append("without a matching character index() must return replacement_index; returns %s" % show(sm.ret, maxd=3))
         else:
-            ok = False
-            break
-    ok = ok and cur == ("param", 1, "self")
-    rep.check(bool(ok), "R14.4", "index", "StrGlyphMapping::index must be the enumeration position in chars() with replacement_index as fallback; found %s" % show(ro, maxd=8), at=idx.span, fn=idx.path)
-    # the find closure compares the searched char with the enumerated one and map takes the index
-    for c in prog.closures_of.get(idx.id, []):
-        r = strip_refs(Origins(c).return_origin())
-        if r[0] == "call" and r[1].endswith("PartialEq>::eq") or (r[0] == "bin" and r[1] == "Eq"):
-            rep.ok("R14.4", "index:find-closure", detail=show(r), at=c.span, fn=c.path)
+            n_hit += 1
+            ch = ("field", item, 1) if enum else item
+            want_ret = ("field", item, 0) if enum else ("call", "search::position", (), (it,))
+            eq = [fct for fct in rest if fct[0] == "eq" and {repr(fct[1]), repr(fct[2])} == {repr(ch), repr(cpar)}]
+            if len(rest) != 1 or not eq or sm.ret != want_ret:
+                bad.append("a hit must be the position of the first enumerated character equal to c; when %s returns %s" % ("; ".join(show_fact(x) for x in rest), show(sm.ret, maxd=4)))
+    rep.check(not bad and n_hit >= 1 and n_miss >= 1, "R14.4", "index", "StrGlyphMapping::index must be the enumeration position in chars() with replacement_index as fallback; %s" % "; ".join(sorted(set(bad))[:2]), at=idx.span, fn=idx.path)
+
     for nm in ("chars", "ranges"):
         f = prog.method1(STRMAP, nm, None)
-        clos = []
-        st = [f]
-        while st:
-            x = st.pop()
-            for c in prog.closures_of.get(x.id, []):
-                clos.append(c)
-                st.append(c)
-        # the from_fn closure: switch on the char with value 0 -> two more next() calls -> RangeInclusive::new(start, end)
+        P_ = Paths(prog)
+        why = []
         good = False
-        detail = None
-        for c in clos:
-            co = Origins(c)
-            nexts = [bi for bi in co.cfg.live_blocks() if c.body["blocks"][bi]["t"] and c.body["blocks"][bi]["t"]["k"] == "call" and c.body["blocks"][bi]["t"]["f"].get("name") == "next"]
-            rng = [bi for bi in co.cfg.live_blocks() if c.body["blocks"][bi]["t"] and c.body["blocks"][bi]["t"]["k"] == "call" and c.body["blocks"][bi]["t"]["f"].get("path", "").endswith("RangeInclusive::<Idx>::new")]
-            if len(nexts) != 3 or len(rng) != 2:
-                continue
-            # classify the two RangeInclusive::new sites by the guard on the first char
-            ok2 = True
-            for bi in rng:
-                args = co.term_args(bi)
-                gs = dominating_guards(c, co, bi)
-                zero = None
-                for d, lit in gs:
-                    if any(n[0] == "call" and n[1].endswith("::next") for n in walk(d)) and d[0] != "discr":
-                        if lit == (0,):
-                            zero = True
-                        elif lit and lit[0] == "not" and 0 in lit[1:]:
-                            zero = False
-                if zero is True:
-                    # start and end come from two different later next() calls
-                    ok2 = ok2 and args[0] != args[1] and all(any(n[0] == "call" and n[1].endswith("::next") for n in walk(a)) for a in args)
-                elif zero is False:
-                    ok2 = ok2 and args[0] == args[1]
+        try:
+            outer = P_.of(f)
+            gens = [n for sm in outer for n in walk(sm.ret) if n[0] == "call" and n[1].endswith("from_fn") and n[3]]
+            if len(outer) != 1 or len(gens) != 1:
+                raise Unsupported("%s() is not a single from_fn generator" % nm)
+            gen = gens[0][3][0]
+            if not (gen[0] == "agg" and str(gen[1]).startswith("closure:")):
+                raise Unsupported("generator is not a closure")
+            caps = [strip_refs(c) for c in gen[2]]
+            src = [k for k, c in enumerate(caps) if match(c, ("call", "*::chars", "_", (("field", me, field_index(prog, STRMAP, "data")),))) is not None]
+            if len(src) != 1:
+                raise Unsupported("the generator does not capture self.data.chars()")
+            g = prog.fns[gen[1][len("closure:"):]]
+            gs = P_.of(g)
+            good = True
+            n_marker = n_plain = 0
+            for sm in gs:
+                nexts = [fct for fct in sm.facts if fct[0] == "variant" and fct[1][0] == "call" and fct[1][1].split("::")[-1] == "next" and fct[1][3] and fct[1][3][0][0] == "upvar" and fct[1][3][0][1] == src[0]]
+                other = [fct for fct in sm.facts if fct not in nexts]
+                if not nexts:
+                    good = False
+                    why.append("a path does not read the string")
+                    continue
+                first = ("payload", nexts[0][1])
+                marker = None
+                isz = lambda t: t in (("const", 0), ("const", "\x00"))   # the NUL marker as a switch value / a char literal
+                is_marker_test = lambda fct: fct[0] in ("eq", "ne") and ((fct[1] == first and isz(fct[2])) or (fct[2] == first and isz(fct[1])))
+                for fct in other:
+                    if is_marker_test(fct):
+                        marker = fct[0] == "eq"
+                stray = [fct for fct in other if not is_marker_test(fct)]
+                if stray:
+                    good = False
+                    why.append("a path depends on %s" % show_fact(stray[0]))
+                    continue
+                ended = any(fct[2] == ("None",) for fct in nexts)
+                if ended:
+                    if sm.ret != NONE or sm.writes():
+                        good = False
+                        why.append("the generator must end (None, index untouched) when the string ends inside an item")
+                    continue
+                val = sm.ret[2][0] if sm.ret[0] == "agg" and str(sm.ret[1]).endswith("Option::Some") and sm.ret[2] else None
+                rng = val
+                if nm == "ranges":
+                    rng = val[2][1] if val is not None and val[0] == "agg" and val[1] == "tuple" and len(val[2]) == 2 else None
+                m = match(rng, ("call", "*RangeInclusive::<Idx>::new", "_", ("?s", "?e"))) if rng is not None else None
+                if m is None:
+                    good = False
+                    why.append("an item is %s" % show(sm.ret, maxd=4))
+                    continue
+                if marker is True:
+                    n_marker += 1
+                    ok_ = len(nexts) == 3 and m["?s"] == ("payload", nexts[1][1]) and m["?e"] == ("payload", nexts[2][1]) and len({repr(x[1]) for x in nexts}) == 3
+                elif marker is False:
+                    n_plain += 1
+                    ok_ = len(nexts) == 1 and m["?s"] == first and m["?e"] == first
                 else:
-                    ok2 = False
-            good = ok2
-            detail = c.key()
-            if nm == "ranges" and good:
-                # index advances by end - start + 1 resp. 1
-                adds = []
-                for bi in co.cfg.live_blocks():
-                    for si, s in enumerate(c.body["blocks"][bi]["s"]):
-                        if s["k"] == "assign" and s["place"]["p"] and s["rv"]["k"] in ("use",):
-                            v = co._rvalue(s["rv"], bi, si)
-                            if v[0] == "bin" and v[1] == "Add":
-                                adds.append(v)
-                from rules.c10 import fold
-                forms = [fold(a) for a in adds]
-                one = [a for a in forms if match(a, ("bin", "Add", "_", ("const", 1))) is not None and not any(n[0] == "bin" and n[1] == "Sub" for n in walk(a))]
-                span = [a for a in forms if match(a, ("bin", "Add", "_", ("bin", "Add", ("bin", "Sub", "?e", "?s"), ("const", 1)))) is not None]
-                good = len(one) >= 1 and len(span) >= 1
-        rep.check(good, "R14.4", nm, "StrGlyphMapping::%s must decode '\\0' start end as start..=end and any other char c as c..=c%s" % (nm, " advancing the index by end-start+1 / 1" if nm == "ranges" else ""),
-                  at=f.span, fn=f.path, detail=detail, status="undecided")
+                    ok_ = False
+                if not ok_:
+                    good = False
+                    why.append("the %s item is decoded as %s..=%s" % ("marker" if marker else "plain", show(m["?s"], maxd=3), show(m["?e"], maxd=3)))
+                if nm == "ranges":
+                    # index: the tuple carries the old index, the captured index advances by the size of the range
+                    ws = sm.writes()
+                    iv = [k for k, c in enumerate(caps) if c == ("const", 0)]
+                    from rules.c10 import fold
+                    from mirq.poly import normal_form
+                    if len(ws) != 1 or ws[0][1][0] != "upvar" or val[2][0] != ("upvar", ws[0][1][1], ws[0][1][2]):
+                        good = False
+                        why.append("the index of an item must be the captured counter before it is advanced")
+                        continue
+                    old = ("upvar", ws[0][1][1], ws[0][1][2])
+                    inc = ("const", 1) if not marker else ("bin", "Add", ("bin", "Sub", ("cast", m["?e"], "usize"), ("cast", m["?s"], "usize")), ("const", 1))
+                    if normal_form(fold(ws[0][2])) is None or normal_form(fold(ws[0][2])) != normal_form(fold(("bin", "Add", old, inc))):
+                        good = False
+                        why.append("the counter advances by %s" % show(fold(ws[0][2]), maxd=5))
+            good = good and n_marker >= 1 and n_plain >= 1
+        except Unsupported as e:
+            good = False
+            why.append(str(e))
+        rep.check(good, "R14.4", nm, "StrGlyphMapping::%s must decode '\\0' start end as start..=end and any other char c as c..=c%s; %s" % (nm, " advancing the index by end-start+1 / 1" if nm == "ranges" else "", "; ".join(sorted(set(why))[:2])),
+                  at=f.span, fn=f.path, status="undecided")
